@@ -96,7 +96,7 @@ P["C11"] = {
 P["C14"] = {
     "design_ref": "DESIGN.md §8 C14, Appendix B", "assumptions": TIERA_ASSUME,
     "bounds": "Tier A: n <= 3 rules, K <= 3 firings; every condition may return a bool, a non-bool, an error or panic; every action may return nil, an error or panic; flag enumerated",
-    "outside": "real failures inside expressions (nil pointer, index, kind mismatch, division by zero: Tier B); runs longer than K",
+    "outside": "failure kinds outside the template family; runs longer than K",
     "runs": [tierA(2, 2, fErr | fFlag, QT), fetchA(3, fErr | fFlag, QT), tierA(3, 2, fErr | fFlag, T), tierA(2, 3, fErr | fFlag | fRetract, T), tierA(2, 2, fErr | fFlag | fListen | fDeleted, T)]}
 P["C15"] = {
     "design_ref": "DESIGN.md §8 C15, Appendix B", "assumptions": TIERA_ASSUME + [
@@ -159,7 +159,7 @@ def _tbsets():
 
 
 TB_SETS = _tbsets()
-FLAGN = {1: "perm", 2: "symsal", 4: "nilP"}
+FLAGN = {1: "perm", 2: "symsal", 4: "nilP", 8: "errflag"}
 
 
 def tierB(setname, k, flags, tiers, **kw):
@@ -230,9 +230,10 @@ P["C12"]["assumptions"] = TIERC_ASSUME + TIERB_ASSUME
 P["C10"]["runs"] += [tierB("control", 3, 0, QT, require_reach=["tierB:self-retract-fired", "tierB:complete-fired"]), tierB("control", 2, 1, T, require_reach=["tierB:self-retract-fired", "tierB:complete-fired"])]
 P["C10"]["assumptions"] = TIERA_ASSUME + TIERB_ASSUME
 P["C10"]["bounds"] += "; Tier B: Retract (self / other / unknown) and Complete in the middle of real action lists (template b_retract) reached through FunctionCall -> GoValueNode.CallFunction -> reflect MethodByName/Call"
-P["C14"]["runs"] += [tierB("control", 3, 0, QT), tierB("control", 2, 1, T)]
+P["C14"]["runs"] += [tierB("control", 3, 0, QT), tierB("control", 2, 1, T),
+                     tierB("failing", 2, 8, QT, require_reach=["tierB:execute-returned", "tierB:flag-set-and-a-condition-fails"])]
 P["C14"]["assumptions"] = TIERA_ASSUME + TIERB_ASSUME
-P["C14"]["bounds"] += "; Tier B: real failures chosen by the solver through the facts (index out of range, integer division by zero, panicking user method, nil pointer; a failing sub-expression shared with a healthy rule)"
+P["C14"]["bounds"] += "; Tier B: real failures chosen by the solver through the facts (index out of range, integer division by zero, panicking user method, nil pointer, kind mismatch, missing fact, missing map key, a failing parenthesised sub-expression, Complete() before a failing action; a failing sub-expression shared with a healthy rule); the same failing templates with ReturnErrOnFailedRuleEvaluation set (error names a rule whose memo-free evaluation fails, nothing fires)"
 
 ALLB = sorted(set(sum(TB_SETS.values(), [])) | {"b_argshare", "two", "tiny"})
 
